@@ -1017,9 +1017,10 @@ def replay_accept(w):
     chars = [B32[x] for x in data]
     if w["bad"][0] is not None:
         chars[w["bad"][0]] = w["bad"][1]
-    elif w["P"] == (1 if data[0] == 0 else BECH32M) and len(data) >= 7:
-        # P is the value the solver gave the polynomial; when it chose "valid", put the real checksum characters
-        pm = spec_polymod(spec_hrp_expand(hrp) + data[:-6] + [0] * 6) ^ (1 if data[0] == 0 else BECH32M)
+    elif w.get("P") is not None and len(data) >= 7:
+        # P is the value the solver gave the polynomial; the last six symbols act bijectively on the 30-bit polymod value, so the
+        # checksum characters that make the REAL polymod equal P are computed directly (covers "valid" and "the other constant")
+        pm = spec_polymod(spec_hrp_expand(hrp) + data[:-6] + [0] * 6) ^ (w["P"] & 0x3FFFFFFF)
         chars[-6:] = [B32[(pm >> 5 * (5 - i)) & 31] for i in range(6)]
     s = hrp + "1" + "".join(chars)
     syms = [B32.find(c) for c in chars]
